@@ -256,7 +256,7 @@ def setup(chk, props):
     drv = vlib.build_driver("mockvm", build)
     chk.prove(props + ["Properties_Code_Mocks.v"])
     chk.cov["trusted_base"] = TRUSTED + [
-        "Properties_Code_Mocks.v: find_expectation(), have_always_expectation_for(), have_never_call_expectation_for(), remove_expectation_for(), destroy_expectation_if_time_to_die(), remove_never_call_expectation_for() and successfully_mocked_call() of src/mocks.c, translated whole on every run, are proved equal to Mocks.v's find_exp / have_always / have_never / remove_first / after_use / remove_never / list membership for every queue (CLite interpreter; CgreenVector calls have list semantics, records live in a heap)",
+        "Properties_Code_Mocks.v: find_expectation(), have_always_expectation_for(), have_never_call_expectation_for(), remove_expectation_for(), destroy_expectation_if_time_to_die(), remove_never_call_expectation_for() and successfully_mocked_call() of src/mocks.c, translated whole on every run, are proved equal to Mocks.v's find_exp / have_always / have_never / remove_first / after_use / remove_never / list membership for every queue; trigger_unfulfilled_expectations() is proved to tell the reporter exactly the model's tally (Mocks.mstep MTally: nothing for always, one pass for an uncalled never, one failure for every other entry left), entry by entry with line and function name, for every queue whose entries have no times() clause (CLite interpreter; CgreenVector calls have list semantics, records live in a heap)",
         "tools/srccode.py: the queue functions of src/mocks.c (find_expectation, remove_expectation_for, have_always/never..., remove_never_call..., destroy_expectation_if_time_to_die, successfully_mocked_call) and expect_(), always_expect_(), never_expect_(), tally_mocks() with trigger_unfulfilled_expectations() and clear_mocks() are translated whole into CLite programs on every run and run by the extracted interpreter against Mocks.v (the queue functions on every queue of up to 3-4 entries; declarations and the tally on queues of up to 2-3 entries with times()/will_return constraints, against Mocks.mstep): a function-level correspondence check, not a proof",
         "axioms: see coverage.print_assumptions"]
     import codetie, re as _re
